@@ -187,7 +187,7 @@ def c09(ctx):
                 "in {0, 1, 2, 3, 2 * 10^10}; the replay compares the resulting state (document changed / commitments advanced / "
                 "refused) and the (from, until) pair the parser hands to a recording time validator; then the same "
                 "edges are replayed with every other numeric protocol limit changed in turn, and with every non-zero time "
-                "moved up by 2^53 (thorough: also 2^62).")
+                "moved up by 2^53 and by 2^63 - 6 (the largest bound becomes the largest int64; thorough: also 2^62).")
     ctx.assumptions = APPLIER_ASSUME
     # 0: a missing until then means until = from; 2 000 000 000 abstract ticks: "longer than any history" (the harness
     # configures 2 * 10^10 seconds for it - more than a count of nanoseconds can hold)
@@ -221,8 +221,10 @@ def c09(ctx):
             ctx.add_violation(m)
     # the same edges with every non-zero time moved up by 2^53 (and, thorough, by 2^62): whole numbers that a double does
     # not hold exactly - an order-preserving map, the model's verdicts stay
-    for off in ([2 ** 53] if ctx.tier == "quick" else [2 ** 53, 2 ** 62]):
-        for td in ([1] if ctx.tier == "quick" else [0, 1, 3]):
+    # (2^63 - 6 with time delta 0: the largest bound of the cube becomes the largest int64)
+    pairs = [(2 ** 53, 1), (2 ** 63 - 6, 0)] if ctx.tier == "quick" else [(2 ** 53, 0), (2 ** 53, 1), (2 ** 53, 3), (2 ** 62, 1), (2 ** 63 - 6, 0)]
+    for off, td in pairs:
+        if True:
             with open(saved[td]) as f:
                 summ = ctx.harness_json(["applier-replay", "-td", str(td), "-parser", "-toffset", str(off)], f.read())
             ctx.cov["evaluations"] += summ["cases"]
